@@ -158,24 +158,33 @@ def run(ctx):
 
     # ---- binding self-test: flipped expectations must be noticed
     def find(pred):
-        return next([nodes[n] for n in w] for w in walks if pred([nodes[n] for n in w]))
-    n = 0
+        for w in walks:
+            ss = [nodes[x] for x in w]
+            if pred(ss) and not rc.agree_run(hs, ss)[1]:
+                return ss
+        return None
     w1 = find(lambda ss: ss[0]["mode"] == "direct" and ss[-1]["verdict"] == "yes" and ss[-1]["k"] >= 2)
-    bad = [dict(s) for s in w1]
-    bad[-1]["verdict"] = "no"
-    n += bool(rc.agree_run(hs, bad)[1])
-    bad = [dict(s) for s in w1]
-    bad[1]["at"] = 1
-    n += bool(rc.agree_run(hs, bad)[1])
-    bad = [dict(s) for s in w1][:-1]                     # drop the agreeing poll: the code polls once more than expected
-    n += bool(rc.agree_run(hs, bad)[1])
     w2 = find(lambda ss: ss[0]["mode"] == "ddl_meta" and ss[-1]["future"] == "no")
-    bad = [dict(s) for s in w2]
-    bad[-1]["future"] = "yes"
-    n += bool(rc.agree_run(hs, bad)[1])
-    if n != 4:
-        raise tlc.MachineryError("binding self-test failed: only %d of 4 corrupted expectations were rejected" % n)
-    ctx.note("binding_selftest", {"corrupted_rejected": n})
+    if w1 is None or w2 is None:
+        if not by_sig:
+            raise tlc.MachineryError("binding self-test: no conforming probe behaviour")
+        ctx.note("binding_selftest", {"skipped": "the code under test diverges on every probe"})
+    else:
+        n = 0
+        bad = [dict(s) for s in w1]
+        bad[-1]["verdict"] = "no"
+        n += bool(rc.agree_run(hs, bad)[1])
+        bad = [dict(s) for s in w1]
+        bad[1]["at"] = 1
+        n += bool(rc.agree_run(hs, bad)[1])
+        bad = [dict(s) for s in w1][:-1]                 # drop the agreeing poll: the code polls once more than expected
+        n += bool(rc.agree_run(hs, bad)[1])
+        bad = [dict(s) for s in w2]
+        bad[-1]["future"] = "yes"
+        n += bool(rc.agree_run(hs, bad)[1])
+        if n != 4:
+            raise tlc.MachineryError("binding self-test failed: only %d of 4 corrupted expectations were rejected" % n)
+        ctx.note("binding_selftest", {"corrupted_rejected": n})
     for h in hs.values():
         h.shutdown()
     ctx.note("rule", "one case = one complete behaviour (sequence of per-poll snapshots to a verdict); non-trivial = at "
